@@ -126,7 +126,7 @@ theorem codeALIGN_len (cfg : Cfg) (s : St) (n : Int) (hn : 0 < n) (hn2 : n < 655
   simp [h1, h2, h3]
 
 
-/-! ## Refinement relation (outside structure bodies) -/
+/-! ## Refinement relation, part outside structure bodies (`Rout`); the full relation `R` is in `Lemmas/AddrStruct.lean` -/
 
 /-- the generated segment table and the manual's ORG table say the same -/
 structure Agree (segs : Nat → Nat → AddrSpec.SegInfo) : Prop where
@@ -138,7 +138,7 @@ structure Agree (segs : Nat → Nat → AddrSpec.SegInfo) : Prop where
   sizeRange : ∀ c t, (segs c t).size ≤ 4611686018427387904
   noStruct : ∀ c, (segs c structSeg).present = false
 
-structure R (s : St) (a : AddrSpec.A) : Prop where
+structure Rout (s : St) (a : AddrSpec.A) : Prop where
   cpu : s.cpu = a.cpu
   seg : s.actPC = a.seg
   listing : s.listOn = a.listing
@@ -151,21 +151,32 @@ structure R (s : St) (a : AddrSpec.A) : Prop where
   pcs : ∀ t, a.started t = true → s.pcs t = wrap64 (a.pc t)
   ph : ∀ t, s.phases t :: s.pstack t = (a.offs t).map wrap64 ++ [0]
   savedOK : ∀ x ∈ s.saves, x.2.1 ≠ structSeg ∧ s.used x.2.1 = true
+  /-- the structure pseudo segment is never a segment of the abstract machine -/
+  startedNS : a.started structSeg = false
+  offsNS : a.offs structSeg = []
 
-theorem R_phase {s : St} {a : AddrSpec.A} (h : R s a) (t : Nat) : s.phases t = wrap64 (AddrSpec.off a t) := by
+theorem Rout_segNS {s : St} {a : AddrSpec.A} (h : Rout s a) : a.seg ≠ structSeg := by
+  rw [← h.seg]; exact h.notStruct
+
+theorem Rout_offsNS_upd {s : St} {a : AddrSpec.A} (h : Rout s a) (v : List Int) :
+    AddrSpec.upd a.offs a.seg v structSeg = [] := by
+  have := Rout_segNS h
+  simp [AddrSpec.upd, Ne.symm this, h.offsNS]
+
+theorem R_phase {s : St} {a : AddrSpec.A} (h : Rout s a) (t : Nat) : s.phases t = wrap64 (AddrSpec.off a t) := by
   have := h.ph t
   unfold AddrSpec.off
   cases hx : a.offs t with
   | nil => simp [hx] at this; simp [this.1, wrap64_def]
   | cons o os => simp [hx] at this; simp [this.1]
 
-theorem R_started {s : St} {a : AddrSpec.A} (h : R s a) : a.started a.seg = true := by
+theorem R_started {s : St} {a : AddrSpec.A} (h : Rout s a) : a.started a.seg = true := by
   rw [← h.seg, ← h.used]; exact h.usedAct
 
-theorem R_pc {s : St} {a : AddrSpec.A} (h : R s a) : s.pcs s.actPC = wrap64 (a.pc a.seg) := by
+theorem R_pc {s : St} {a : AddrSpec.A} (h : Rout s a) : s.pcs s.actPC = wrap64 (a.pc a.seg) := by
   rw [h.seg]; exact h.pcs _ (R_started h)
 
-theorem R_epc {s : St} {a : AddrSpec.A} (h : R s a) : epc s = wrap64 (AddrSpec.dollar a) := by
+theorem R_epc {s : St} {a : AddrSpec.A} (h : Rout s a) : epc s = wrap64 (AddrSpec.dollar a) := by
   unfold epc AddrSpec.dollar
   rw [h.frames, R_pc h, R_phase h, h.seg]
   simp only [wrap64_def]; omega
